@@ -6,7 +6,7 @@
 // All schedules up to a preemption bound; oracle on every complete execution.  The `tsan` variant runs the same schedules
 // with ThreadSanitizer watching (the scheduler's hand-offs are invisible to it, see sched.cpp).
 // args: pm=t|p  ops=<script per thread, comma separated; s = send, n = send with destroy=false, b = send_batch of 2, B = send_batch of 3, r = process one inbound
-//       in-sequence Heartbeat as the reader thread would (at most one thread with r steps)>  pk=m|f  bound=<n>  start=<first number>
+//       in-sequence Heartbeat as the reader thread would (at most one thread with r steps)>  pm=t2|p2: two sessions in the process, thread t drives session t % 2   pk=m|f  bound=<n>  start=<first number>
 // With pk=f the store's lseek/read/write calls are scheduling points too and the files are reopened by a fresh FilePersister at the end.
 #include <fix8/f8includes.hpp>
 #include "utest_types.hpp"
@@ -27,9 +27,10 @@ struct Ses25 : Session {
 static char PM = 't', PK = 'm';
 static std::vector<std::string> SCRIPTS;
 static unsigned START = 1;
-static Ses25 *ses;
+static int NS = 1;	// sessions in the process (pm=t2: two sessions, thread t drives session t % 2) — they share what is static in the library
+struct Ctx { sim::ScriptSock *sock; Poco::Net::StreamSocket *ps; Persister *per; Ses25 *ses; ClientConnection *conn; std::string dbn; int inbound_done; };
+static Ctx cx[2];
 static std::atomic<int> wire_msgs;
-static int inbound_done;
 struct OpRes { std::vector<std::string> ids; bool ok = false; size_t n = 0; };
 static std::vector<std::vector<OpRes>> res;
 
@@ -55,6 +56,7 @@ static void *sender(void *a)
 	{ static int racy; ++racy; }	// deliberate unsynchronised access: the tsan variant must report it (self-test of the race oracle)
 #endif
 	const std::string& sc = SCRIPTS[t];
+	Ses25 *ses = cx[t % NS].ses; int& inbound_done = cx[t % NS].inbound_done;
 	for (size_t o = 0; o < sc.size(); ++o) {
 		OpRes& r = res[t][o];
 		if (sc[o] == 'r') {	// inbound Heartbeat carrying the expected number, handed to Session::process as the reader thread does
@@ -72,48 +74,75 @@ static void *sender(void *a)
 	return 0;
 }
 
+static std::string judge_session(int k);
+
 static std::string body()
 {
-	wire_msgs = 0; inbound_done = 0;
+	wire_msgs = 0;
 	res.assign(SCRIPTS.size(), std::vector<OpRes>(8));
-	sim::ScriptSock *sock = new sim::ScriptSock;
-	sock->send_hook = [](const void *b, int len) -> int {
-		vs_point(9001);
-		int k = 0; const char *p = (const char *)b; for (int i = 0; i + 3 < len; ++i) if (p[i] == 1 && p[i + 1] == '1' && p[i + 2] == '0' && p[i + 3] == '=') ++k;
-		wire_msgs += k; return len;
-	};
-	Poco::Net::StreamSocket *ps = new Poco::Net::StreamSocket(sock);
-	Persister *per;
-	const std::string dbn = "c25." + std::to_string(getpid()) + ".db";	// the shards of one part share a working directory
-	if (PK == 'f') { ::unlink(dbn.c_str()); ::unlink((dbn + ".idx").c_str()); FilePersister *fp = new FilePersister(0); fp->initialise(".", dbn, true); per = fp; }
-	else per = new MemoryPersister;
-	// the Session constructor starts the heartbeat timer thread; it plays no part in sending: keep it out of the schedule space
-	vs_suspend(1);
-	ses = new Ses25(UTEST::ctx(), SessionID(f8String("FIX.4.2"), f8String("CLI"), f8String("SRV")), per);
-	vs_suspend(0);
-	Poco::Net::SocketAddress addr("127.0.0.1", 9999);
-	ClientConnection *conn = new ClientConnection(ps, addr, *ses, 30, PM == 'p' ? pm_pipeline : pm_thread, true, false);
-	ses->_connection = conn; ses->_next_send_seq = START; ses->_next_receive_seq = 1; ses->_state = States::st_continuous; ses->_active = true;
-	if (PM == 'p') conn->_writer.start();
+	for (int k = 0; k < NS; ++k) {
+		Ctx& c = cx[k]; c.inbound_done = 0;
+		c.sock = new sim::ScriptSock;
+		c.sock->send_hook = [](const void *b, int len) -> int {
+			vs_point(9001);
+			int n = 0; const char *p = (const char *)b; for (int i = 0; i + 3 < len; ++i) if (p[i] == 1 && p[i + 1] == '1' && p[i + 2] == '0' && p[i + 3] == '=') ++n;
+			wire_msgs += n; return len;
+		};
+		c.ps = new Poco::Net::StreamSocket(c.sock);
+		c.dbn = "c25." + std::to_string(getpid()) + (k ? ".s" + std::to_string(k) : "") + ".db";	// the shards of one part share a working directory
+		if (PK == 'f') { ::unlink(c.dbn.c_str()); ::unlink((c.dbn + ".idx").c_str()); FilePersister *fp = new FilePersister(0); fp->initialise(".", c.dbn, true); c.per = fp; }
+		else c.per = new MemoryPersister;
+		// the Session constructor starts the heartbeat timer thread; it plays no part in sending: keep it out of the schedule space
+		vs_suspend(1);
+		c.ses = new Ses25(UTEST::ctx(), SessionID(f8String("FIX.4.2"), f8String("CLI"), f8String("SRV")), c.per);
+		vs_suspend(0);
+		Poco::Net::SocketAddress addr("127.0.0.1", 9999);
+		c.conn = new ClientConnection(c.ps, addr, *c.ses, 30, PM == 'p' ? pm_pipeline : pm_thread, true, false);
+		c.ses->_connection = c.conn; c.ses->_next_send_seq = START; c.ses->_next_receive_seq = 1; c.ses->_state = States::st_continuous; c.ses->_active = true;
+		if (PM == 'p') c.conn->_writer.start();
+	}
 	size_t total = 0; for (auto& s : SCRIPTS) for (char c : s) total += c == 's' || c == 'n' ? 1 : c == 'b' ? 2 : c == 'B' ? 3 : 0;
 	pthread_t pt[8];
 	for (long i = 0; i < (long)SCRIPTS.size(); ++i) pthread_create(&pt[i], 0, sender, (void *)i);
 	for (size_t i = 0; i < SCRIPTS.size(); ++i) pthread_join(pt[i], 0);
 	if (PM == 'p') {
-		// wait until the writer thread has drained the queue (a message never written shows up as LIVELOCK)
+		// wait until the writer threads have drained the queues (a message never written shows up as LIVELOCK)
 		while ((size_t)wire_msgs.load() < total) sched_yield();
 		// The writer thread now sits in (or is on its way to) the blocking pop.  FIXWriter::stop() would push a null pointer,
 		// which FastFlow's push refuses (assert(data != NULL); shutdown of the pipelined model is not part of this property):
 		// cancel the thread and feed it one last message.  Once it is joined everything before that message is fully processed;
 		// the message itself is written (as the next number) or left in the queue, depending on where the cancellation met the thread.
-		conn->_writer.request_stop(); ses->send(nos("END"), true); conn->_writer.join();
+		for (int k = 0; k < NS; ++k) { cx[k].conn->_writer.request_stop(); cx[k].ses->send(nos("END"), true); cx[k].conn->_writer.join(); }
 	}
+	std::string verdict, summary;
+	for (int k = 0; k < NS; ++k) {
+		const std::string r = judge_session(k);	// "<verdict>|<summary>", verdict empty when the session is fine
+		const size_t bar = r.find('\x1f');
+		if (verdict.empty() && bar) verdict = r.substr(0, bar);
+		summary += (k ? " / " : "") + r.substr(bar + 1);
+	}
+	// ---- teardown
+	for (int k = 0; k < NS; ++k) {
+		Ctx& c = cx[k];
+		c.ses->_connection = nullptr;
+		delete c.conn; delete c.ps;
+		vs_suspend(1); delete c.ses; vs_suspend(0);	// ~Session sleeps 1 s for service threads that do not exist here
+		delete c.per;
+		if (PK == 'f') { ::unlink(c.dbn.c_str()); ::unlink((c.dbn + ".idx").c_str()); }
+	}
+	return (verdict.empty() ? "OK|" : "BAD|" + verdict + "|") + summary;
+}
+
+static std::string judge_session(int k)
+{
+	Ctx& c = cx[k]; sim::ScriptSock *sock = c.sock; Persister *per = c.per; Ses25 *ses = c.ses; const std::string& dbn = c.dbn; const int inbound_done = c.inbound_done;
 	// ---- oracle
 	std::string verdict, summary;
 	std::vector<std::string> wire;
 	for (auto& o : sock->out) if (!sim::split_wire(o, wire) && verdict.empty()) verdict = "wire-well-formed|a socket write is not a sequence of whole FIX messages: " + vh::show(o.substr(0, 120));
 	std::multiset<std::string> sent, seen;
 	for (size_t t = 0; t < SCRIPTS.size(); ++t) for (size_t o = 0; o < SCRIPTS[t].size(); ++o) {
+		if ((int)(t % NS) != k) continue;
 		for (auto& id : res[t][o].ids) sent.insert(id);
 		if (!res[t][o].ok && verdict.empty()) verdict = res[t][o].ids.empty() ? std::string("inbound-processed|Session::process refused an in-sequence Heartbeat") : "send-succeeds|send of " + res[t][o].ids[0] + " reported failure (" + std::to_string(res[t][o].n) + " written)";
 	}
@@ -149,13 +178,7 @@ static std::string body()
 		if (verdict.empty() && (!g || cs != START + wire.size() || cr != 1u + inbound_done)) verdict = "control-record-follows|after reopening the store files the control record is (" + std::to_string(cs) + "," + std::to_string(cr) + ")";
 		re.stop();
 	}
-	// ---- teardown
-	ses->_connection = nullptr;
-	delete conn; delete ps;
-	vs_suspend(1); delete ses; vs_suspend(0);	// ~Session sleeps 1 s for service threads that do not exist here
-	delete per;
-	if (PK == 'f') { ::unlink(dbn.c_str()); ::unlink((dbn + ".idx").c_str()); }
-	return (verdict.empty() ? "OK|" : "BAD|" + verdict + "|") + summary;
+	return verdict + '\x1f' + summary;
 }
 
 int main(int argc, char **argv)
@@ -163,7 +186,7 @@ int main(int argc, char **argv)
 	vh::Run R(argc, argv);
 	GlobalLogger::set_levels(Logger::Levels(Logger::None));
 	auto setcfg = [&](const std::string& pm, const std::string& ops, const std::string& pk, unsigned start) {
-		PM = pm[0]; PK = pk[0]; START = start; SCRIPTS.clear(); std::istringstream is(ops); std::string x; while (std::getline(is, x, ',')) SCRIPTS.push_back(x);
+		PM = pm[0]; NS = pm.size() > 1 && pm[1] == '2' ? 2 : 1; PK = pk[0]; START = start; SCRIPTS.clear(); std::istringstream is(ops); std::string x; while (std::getline(is, x, ',')) SCRIPTS.push_back(x);
 	};
 	setcfg(R.args.get("pm", "t"), R.args.get("ops", "ss,ss"), R.args.get("pk", "m"), (unsigned)R.args.num("start", 1));
 	const int bound = (int)R.args.num("bound", 2);
@@ -195,7 +218,7 @@ int main(int argc, char **argv)
 	}
 	sx::Stats S;
 	std::string ops; for (auto& s : SCRIPTS) ops += (ops.empty() ? "" : ",") + s;
-	const std::string cfg = std::string(1, PM) + ":" + ops + ":" + std::string(1, PK) + ":" + std::to_string(START);
+	const std::string cfg = std::string(1, PM) + (NS > 1 ? std::to_string(NS) : "") + ":" + ops + ":" + std::string(1, PK) + ":" + std::to_string(START);
 	sx::explore(R, cfg, body, judge, bound, S);
 	R.counters["bound_completed"] = S.bound_completed; R.counters["max_points"] = S.maxpts; R.counters["distinct_outcomes"] = (long long)distinct.size();
 	R.traces = S.execs;
